@@ -184,6 +184,9 @@ var ghostFieldRe = regexp.MustCompile(`^field\s+\(([A-Za-z_][A-Za-z0-9_]*)\)\s+(
 
 // ghostField looks up a ghost field of the named type t (declared in t's package).
 func (p *Program) ghostField(t types.Type, name string) *GhostField {
+	if pt, isPtr := t.(*types.Pointer); isPtr {
+		t = pt.Elem() // ghost fields of a struct type are reached through pointers to it
+	}
 	nt, ok := t.(*types.Named)
 	if !ok || nt.Obj().Pkg() == nil {
 		return nil
